@@ -10,6 +10,8 @@ def dTok (j : Json) : Except String Tok :=
   match j with
   | .str "syntax" => .ok .syntaxError
   | .str "include" => .ok .includeError
+  | .str "stopped" => .ok .stopped
+  | .str "text_decode" => .ok .textDecodeError
   | _ =>
     match j.getObjVal? "tree", j.getObjVal? "raised" with
     | .ok t, _ => (dTree t).map .tree
